@@ -4,6 +4,6 @@ d=$(realpath "$1"); w=/var/tmp/sfv-demo-$$
 git -C /repo worktree add -q $w HEAD || exit 2
 trap 'git -C /repo worktree remove --force $w' EXIT
 demo=$(ls $d/demo*.py | head -1); cp $demo $w/; demo=$w/$(basename $demo)
-(cd $w && PYTHONPATH=$w timeout 900 /venv/bin/python $demo >/dev/null 2>&1); echo "demo on original: exit $?"
+(cd $w && mkdir -p $w/.demo_home && HOME=$w/.demo_home PYTHONPATH=$w timeout 900 /venv/bin/python $demo >/dev/null 2>&1); echo "demo on original: exit $?"
 git -C $w apply $d/patch.diff || { echo "patch does not apply"; exit 2; }
-(cd $w && PYTHONPATH=$w timeout 900 /venv/bin/python $demo >/dev/null 2>&1); echo "demo on mutant: exit $?"
+(cd $w && mkdir -p $w/.demo_home && HOME=$w/.demo_home PYTHONPATH=$w timeout 900 /venv/bin/python $demo >/dev/null 2>&1); echo "demo on mutant: exit $?"
